@@ -16,7 +16,7 @@ ATOMS = ['a', 'b', 'c']
 def programs(ctx):
     rng = ctx.rng('programs')
     progs = [('exhaustive', p) for p in gen.exhaustive_core()]
-    n = 400 if ctx.quick else 3000
+    n = 400 if ctx.quick else 1500
     for i in range(n):
         atoms = ATOMS[:rng.choice([2, 3, 3])]
         progs.append(('random', gen.core_program(rng, atoms, (1, 4))))
@@ -25,7 +25,7 @@ def programs(ctx):
 
 def run(ctx):
     H = 3 if ctx.quick else 4
-    maxbits = 12 if ctx.quick else 15
+    maxbits = 12 if ctx.quick else 13
     progs = programs(ctx)
     recs = s4.compare(ctx, [p for _, p in progs], H, maxbits)
     return summarize(ctx, progs, recs, H, maxbits, 'C01')
